@@ -146,6 +146,53 @@ CLAIMED = {
         "the basin and tolerances are stated in the evidence.",
         "Lean 4 proof (identifiability / uniqueness of the least-squares minimiser) + recovery runs on "
         "independently generated ground truth", "DESIGN.md §5 C01"),
+    "C03": (
+        "Machine-checked Lean 4 proof about a hand object model of FitProperties/Indentation (provenance "
+        "semantics: every visible result carries the pipeline and settings it was computed with; all numerics "
+        "free): by induction over EVERY finite history of apply_preprocessing, fit_model(**any kwargs, incl. ones "
+        "that raise part-way), direct setting edits and ratings, visible results and fit columns belong to the data "
+        "columns as they are and the settings as stored (never to other settings); a repeated fit with unchanged "
+        "settings computes nothing and changes nothing; together with C06's invariant, results are those of the "
+        "stored pipeline and stored settings (fresh-copy equivalence, partial: histories without direct edits of the "
+        "two preprocessing settings - recorded finding with a Lean witness). Tied by history correspondence and by "
+        "comparison with a fresh object (bytes of columns, parameters, hash).",
+        "Trusted: Lean kernel, standard axioms, hand model (history correspondence), determinism of numpy/lmfit for "
+        "equal inputs (observed). Parameter sets with extra user parameters are outside the model.",
+        "Lean 4 proof (invariant by induction over operation histories) + history correspondence + fresh-object "
+        "oracle", "DESIGN.md §5 C03"),
+    "C06": (
+        "Machine-checked Lean 4 proof on the same object model: a rejected preprocessing request is never "
+        "remembered (not reported, data reset, rejected again with the same error), an accepted one leaves exactly "
+        "the columns of that pipeline, re-applying it is a no-op, and for every history (without direct edits of "
+        "the stored pipeline - recorded finding) the data columns are those of the pipeline the curve reports; "
+        "acceptance = C14's order rules + option errors from the live tables. Tied by history correspondence and "
+        "column digests against a fresh curve, incl. all ordered pairs of requests through both routes.",
+        "Trusted: Lean kernel, standard axioms, hand model (history correspondence), bit-identical determinism of "
+        "the numerical steps (observed by digest comparison).",
+        "Lean 4 proof (invariant over histories) + history/pair correspondence with column digests", "DESIGN.md §5 C06"),
+    "C09": (
+        "Machine-checked Lean 4 proof: the rating decision table over an ordered field with NaN (failed binary "
+        "criterion => 0, undefined continuous feature => -1, otherwise the regressor; without a fit -1 or 0), the "
+        "range theorem for averaging tree ensembles (a convex combination of responses in [0,10] lies in [0,10]), "
+        "and on the object model the soundness of the rating cache (a cached value is returned only while fit "
+        "provenance, regressor, training set, feature selection and LDA flag are unchanged; 'none' bypasses it; "
+        "re-preprocessing clears it). Tied by history correspondence (whether a rater was constructed). Partial: "
+        "scikit-learn numerics, totality on all state classes, determinism across objects/processes and equality "
+        "with the standalone rater are explored by the oracle.",
+        "Trusted: Lean kernel, standard axioms, hand models, scikit-learn (explored).",
+        "Lean 4 proof (decision logic, convexity, cache invariant) + history correspondence + state-class oracle",
+        "DESIGN.md §5 C09"),
+    "C10": (
+        "The Lean object model of C03/C06 is value-semantic (it contains no references), so its machine-checked "
+        "theorems (results current for every history, columns a function of the stored pipeline) hold for every "
+        "history of argument VALUES; that the implementation behaves like this model when callers edit previously "
+        "passed or returned lists, nested option dictionaries, parameter sets and name lists in place and pass them "
+        "again is established by history correspondence with in-place edit operations, a before/after snapshot of "
+        "every argument of every call, a fresh-object comparison, and API probes. Partial: the theorem content "
+        "specific to C10 is the refinement to a reference-free model; mutation of numpy arrays is only monitored.",
+        "Trusted: Lean kernel, standard axioms, hand model; the tie carries the weight for this property.",
+        "Lean 4 proof about a reference-free model + correspondence under in-place edits + argument-mutation monitor",
+        "DESIGN.md §5 C10"),
 }
 
 PENDING_REASON = "check not built yet in this round (planned, see DESIGN.md §8); not claimed until its machinery exists"
